@@ -4,7 +4,7 @@ package main
 
 func init() {
 	heapCB := []string{"SnowflakeHeap.Push", "SnowflakeHeap.Pop", "SnowflakeHeap.Swap", "SnowflakeHeap.Less", "SnowflakeHeap.Len"}
-	registerAcc(accPkg{dir: "broker", callbacks: map[string][]string{`heap\.(Push|Pop|Remove|Fix|Init)`: heapCB}, ctors: `^(NewBrokerContext|NewMetrics|initPrometheus|NewRoundedCounterVec|newRoundedCounter|main)$`,
+	registerAcc(accPkg{dir: "broker", label: "broker", types: []string{"BrokerContext", "Metrics", "CountryStats", "Snowflake", "roundedCounter", "bridgeListHolder", "PromMetrics", "ProxyPoll", "ClientOffer"}, callbacks: map[string][]string{`heap\.(Push|Pop|Remove|Fix|Init)`: heapCB}, ctors: `^(NewBrokerContext|NewMetrics|initPrometheus|NewRoundedCounterVec|newRoundedCounter|main|BrokerContext\.InstallBridgeListProfile|Metrics\.SetIPAddressRecorder)$`,
 		aliases: []lockAlias{
 			{`.`, `(\w+\.)*snowflakeLock`, "broker.snowflakeLock"},
 			{`.`, `(\w+\.)*metrics\.lock`, "broker.metrics.lock"},
@@ -33,19 +33,20 @@ func init() {
 			{"broker.roundedCounter.value", `^prometheus\.go$`, `c\.value`, ""},
 			{"broker.bridgeList.bridgeInfo", `^bridge-list\.go$`, `h\.bridgeInfo`, ""},
 		}})
-	registerAcc(accPkg{dir: "common/turbotunnel", exported: true, ctors: `^(NewClientMap|NewQueuePacketConn|NewRedialPacketConn)$`,
+	registerAcc(accPkg{dir: "common/turbotunnel", label: "turbotunnel", types: []string{"ClientMap", "QueuePacketConn", "RedialPacketConn"}, exported: true, ctors: `^(NewClientMap|NewQueuePacketConn|NewRedialPacketConn)$`,
 		aliases: []lockAlias{{`^clientmap\.go$`, `m\.lock`, "turbotunnel.ClientMap.lock"}},
 		vars: []accVar{
 			{name: "turbotunnel.ClientMap.inner", files: `^clientmap\.go$`, expr: `m\.inner`, mut: `SendQueue|removeExpired`},
 		}})
-	registerAcc(accPkg{dir: "server/lib", exported: true, ctors: `^(newClientIDMap)$`,
+	registerAcc(accPkg{dir: "server/lib", label: "server", types: []string{"clientIDMap", "SnowflakeListener", "Transport", "httpHandler", "SnowflakeClientConn"}, exported: true, ctors: `^(newClientIDMap)$`,
 		aliases: []lockAlias{{`^turbotunnel\.go$`, `m\.lock`, "server.clientIDMap.lock"}},
 		vars: []accVar{
-			{"server.clientIDMap.entries", `^turbotunnel\.go$`, `m\.entries`, ""},
+			{"server.clientIDMap.entries", `^turbotunnel\.go$`, `m\.entries(\[.*\]\.\w+)?`, ""},
 			{"server.clientIDMap.oldest", `^turbotunnel\.go$`, `m\.oldest`, ""},
 			{"server.clientIDMap.current", `^turbotunnel\.go$`, `m\.current`, ""},
 		}})
-	registerAcc(accPkg{dir: "client/lib", exported: true, assume: map[string][]string{"Peers.Count": {"client.Peers.collectLock"}}, ctors: `^(NewPeers|NewWebRTCPeer|NewWebRTCPeerWithEvents)$`,
+	registerAcc(accPkg{dir: "client/lib", label: "client", types: []string{"Peers", "WebRTCPeer", "BrokerChannel", "SnowflakeConn", "WebRTCDialer", "bytesSyncLogger"}, exported: true, assume: map[string][]string{"Peers.Count": {"client.Peers.collectLock"}}, ctors: `^(NewPeers|NewWebRTCPeer|NewWebRTCPeerWithEvents|WebRTCPeer\.connect|WebRTCPeer\.preparePeerConnection|Transport\.SetRendezvousMethod|NewSnowflakeClient|newBrokerChannelFromConfig)$`,
+		exempt: map[string]string{"client.Peers|WebRTCPeer.bytesLogger": "written by Peers.Pop before the popped peer is read; the OnMessage callback reads it only after its pipe write was consumed by that reader, the data path after Pop: ordered by the hand-over channel and the receive pipe, not by a lock"},
 		aliases: []lockAlias{
 			{`^peers\.go$`, `p\.collectLock`, "client.Peers.collectLock"},
 			{`^(webrtc|peers)\.go$`, `(c|snowflake)\.mu`, "client.WebRTCPeer.mu"},
@@ -56,7 +57,7 @@ func init() {
 			{"client.WebRTCPeer.lastReceive", `^webrtc\.go$`, `c\.lastReceive`, ""},
 			{"client.BrokerChannel.natType", `^rendezvous\.go$`, `bc\.natType`, ""},
 		}})
-	registerAcc(accPkg{dir: "proxy/lib", exported: true, ctors: `^(newBytesSyncLogger|NewProxyEventLogger|newTokens)$`,
+	registerAcc(accPkg{dir: "proxy/lib", label: "proxy", types: []string{"bytesSyncLogger", "logEventLogger", "tokens_t", "webRTCConn", "SnowflakeProxy", "SignalingServer"}, exported: true, ctors: `^(newBytesSyncLogger|NewProxyEventLogger|newTokens|newSignalingServer|SnowflakeProxy\.Start)$`,
 		aliases: []lockAlias{
 			{`^(webrtcconn|snowflake)\.go$`, `(c|conn)\.lock`, "proxy.webRTCConn.lock"},
 			{`^pt_event_logger\.go$`, `p\.lock`, "proxy.logEventLogger.lock"},
